@@ -72,6 +72,9 @@ def _cases(R, G, t, n):
         if R.random() < 0.15:
             fl |= G.SPLIT
             pats[-1] = '|'.join(R.choice(['a*', '*b', 'a', '*', '?', '.h/*']) for _ in range(R.randint(2, 3)))
+        if R.random() < 0.15 and not (fl & G.NEGATE):
+            # an ABSOLUTE pattern in front of relative ones (state kept per pattern must be reset: seeded change C13c)
+            pats.insert(R.choice([0, 0, len(pats)]), t.root + '/' + _variants(R, R.choice(BASE)))
         if t.cyclic:
             fl &= ~G.FOLLOW
         pp = pats if len(pats) > 1 or R.random() < 0.5 else pats[0]
@@ -192,6 +195,10 @@ def run(ck: Check) -> int:
             def excluded(x: str) -> bool:
                 isdir = x.endswith('/') or os.path.isdir(os.path.join(t.root, x))
                 subj = x if (x.endswith('/') or not isdir) else x + '/'
+                if x.startswith('/'):
+                    # glob tests its exclusions under REALPATH (it forces the flag), where a relative pattern never matches an
+                    # absolute path (C04's clause); the oracle must not demand more for absolute results
+                    return any(G.globmatch(subj, e, flags=mfl | G.REALPATH, root_dir=t.root) for e in neg)
                 return any(G.globmatch(subj, e, flags=mfl) for e in neg)
             want = [x for x in plain if not excluded(x)]
             if not nounique:
